@@ -3,6 +3,7 @@ package chk
 import (
 	"fmt"
 	"go/token"
+	"go/types"
 
 	"golang.org/x/tools/go/ssa"
 )
@@ -105,6 +106,9 @@ func ruleForceDurationScan(p *Prog, l *Ledger, tier string) {
 			case *ssa.Call:
 				if bi, ok := v.Call.Value.(*ssa.Builtin); ok && bi.Name() == "append" {
 					filler = st
+				} else if sc := v.Call.StaticCallee(); sc != nil && fnPkg(sc) == p.LibSSA && returnsPrefixOfParam(sc) {
+					// s.Items = cutItems(s.Items, d): the helper returns its list or a prefix of it
+					cut = st
 				}
 			}
 		}
@@ -214,23 +218,48 @@ func ruleForceDurationScan(p *Prog, l *Ledger, tier string) {
 			}
 			for _, side := range []ssa.Value{bo.X, bo.Y} {
 				// a cached duration refreshed after the cut: a merge of Duration() calls, where every
-				// operand arriving from a path through the cut is evaluated after it
+				// operand arriving from a path through the cut is evaluated after it – by a call of Duration(), or
+				// by hand: 0 for an empty list, else the end of the cue before the cut index
 				if ph, isPhi := side.(*ssa.Phi); isPhi {
 					allDur, okAll := true, true
-					for i, e := range ph.Edges {
-						ec, isCall := e.(*ssa.Call)
-						if !isCall || ec.Call.StaticCallee() == nil || FnName(ec.Call.StaticCallee()) != "Subtitles.Duration" {
-							allDur = false
-							break
-						}
-						pred := ph.Block().Preds[i]
-						throughCut := after[pred] || pred == cutSite.Block()
-						evaluatedAfter := after[ec.Block()] || (ec.Block() == cutSite.Block() && instrIndex(cutSite) < instrIndex(ec))
-						if throughCut && !evaluatedAfter {
-							okAll = false
-							stale = p.Pos(ec.Pos())
+					var judge func(ph *ssa.Phi, depth int)
+					judge = func(ph *ssa.Phi, depth int) {
+						for i, e := range ph.Edges {
+							pred := ph.Block().Preds[i]
+							throughCut := after[pred] || pred == cutSite.Block()
+							if inner, isInner := e.(*ssa.Phi); isInner && depth < 4 {
+								judge(inner, depth+1)
+								continue
+							}
+							if z, isZ := constInt(e); isZ && z == 0 && throughCut {
+								continue // the list is empty after the cut
+							}
+							if ld, isLd := e.(*ssa.UnOp); isLd && throughCut && k != nil {
+								if _, f, base := loadedField(ld); f == "EndAt" && base != nil {
+									if el, ok := base.(*ssa.UnOp); ok {
+										if ia, ok := el.X.(*ssa.IndexAddr); ok {
+											if sub, ok := ia.Index.(*ssa.BinOp); ok && sub.Op == token.SUB && sub.X == k {
+												if one, ok := constInt(sub.Y); ok && one == 1 && (after[ld.Block()] || ld.Block() == cutSite.Block()) {
+													continue // Items[k-1].EndAt read after the cut at k
+												}
+											}
+										}
+									}
+								}
+							}
+							ec, isCall := e.(*ssa.Call)
+							if !isCall || ec.Call.StaticCallee() == nil || FnName(ec.Call.StaticCallee()) != "Subtitles.Duration" {
+								allDur = false
+								return
+							}
+							evaluatedAfter := after[ec.Block()] || (ec.Block() == cutSite.Block() && instrIndex(cutSite) < instrIndex(ec))
+							if throughCut && !evaluatedAfter {
+								okAll = false
+								stale = p.Pos(ec.Pos())
+							}
 						}
 					}
+					judge(ph, 0)
 					if allDur && okAll {
 						fresh++
 					}
@@ -355,4 +384,43 @@ func isFilterAccumulation(ph *ssa.Phi) bool {
 		return false
 	}
 	return find(ph) && empty && grown
+}
+
+// returnsPrefixOfParam: every return of the function hands back its first slice parameter or a prefix p[:k] of it.
+func returnsPrefixOfParam(f *ssa.Function) bool {
+	if len(f.Blocks) == 0 || f.Signature.Results().Len() != 1 {
+		return false
+	}
+	var par *ssa.Parameter
+	for _, q := range f.Params {
+		if _, ok := q.Type().Underlying().(*types.Slice); ok {
+			par = q
+			break
+		}
+	}
+	if par == nil {
+		return false
+	}
+	n, prefix := 0, false
+	for _, b := range f.Blocks {
+		r, ok := b.Instrs[len(b.Instrs)-1].(*ssa.Return)
+		if !ok {
+			continue
+		}
+		n++
+		switch v := r.Results[0].(type) {
+		case *ssa.Parameter:
+			if v != par {
+				return false
+			}
+		case *ssa.Slice:
+			if v.X != ssa.Value(par) || v.Low != nil || v.High == nil {
+				return false
+			}
+			prefix = true
+		default:
+			return false
+		}
+	}
+	return n > 0 && prefix
 }
